@@ -1,1 +1,557 @@
-//! Async halves of the format drivers (filled in below).
+//! Async halves of the format drivers: the same transcripts / bytes as `sync.rs`, through the async
+//! APIs over the scripted poll adversaries (`io_adv::async_adv`).
+
+use super::sync::{
+    aln_of, binning_index_events, build_binned_index, build_linear_index, crai_of_doc, cram_records_per_slice, fai_of_doc, gff_line_text, gzi_of_doc, parse_sam, parse_vcf, repository_of, sam_header_text, text_of, var_of,
+    vcf_header_text,
+};
+use super::*;
+use crate::io_adv::async_adv::{AdvAsyncRead, AdvAsyncWrite, PollScript, PollStats};
+use futures::StreamExt;
+use noodles_bam as bam;
+use noodles_bcf as bcf;
+use noodles_bgzf as bgzf;
+use noodles_cram as cram;
+use noodles_csi as csi;
+use noodles_fasta as fasta;
+use noodles_fastq as fastq;
+use noodles_gff as gff;
+use noodles_sam as sam;
+use noodles_tabix as tabix;
+use noodles_vcf as vcf;
+use std::num::NonZero;
+use tokio::io::{AsyncReadExt, AsyncWriteExt, BufReader};
+
+pub fn runtime() -> tokio::runtime::Runtime {
+    tokio::runtime::Builder::new_current_thread().max_blocking_threads(8).build().expect("tokio runtime")
+}
+
+fn push(t: &mut Transcript, opts: &ReadOpts, e: Ev) -> bool {
+    if t.len() >= opts.max_events {
+        t.push(Ev::Runaway);
+        return false;
+    }
+    t.push(e);
+    true
+}
+
+fn aln_text(header: &sam::Header, rec: &dyn sam::alignment::Record) -> Result<String, io::Error> {
+    let buf = sam::alignment::RecordBuf::try_from_alignment_record(header, rec)?;
+    Ok(format!("{buf:?}"))
+}
+
+fn var_text(header: &vcf::Header, rec: &dyn vcf::variant::Record) -> Result<String, io::Error> {
+    let buf = vcf::variant::RecordBuf::try_from_variant_record(header, rec)?;
+    Ok(format!("{buf:?}"))
+}
+
+pub fn has_async_reader(name: &str) -> bool {
+    matches!(name, "bgzf" | "bam" | "bam-eager" | "sam" | "cram" | "vcf" | "bcf" | "fasta" | "fastq" | "gff" | "bai" | "csi" | "tabix" | "gzi" | "fai" | "crai")
+}
+
+pub fn has_async_writer(name: &str) -> bool {
+    matches!(name, "bgzf" | "bam" | "sam" | "cram" | "vcf" | "bcf" | "fastq" | "bai" | "csi" | "tabix" | "gzi" | "fai" | "crai")
+}
+
+/// Read `data` through the async reader of driver `name` under a poll script. The events are built
+/// exactly like the sync driver's.
+pub fn read_async(name: &str, data: &Arc<Vec<u8>>, doc: &Doc, script: &PollScript, workers: usize, opts: &ReadOpts) -> Option<(Transcript, PollStats)> {
+    if !has_async_reader(name) {
+        return None;
+    }
+    let src = AdvAsyncRead::new(data.clone(), script);
+    let stats = src.stats.clone();
+    let rt = runtime();
+    let workers = NonZero::new(workers.clamp(1, 8)).unwrap();
+    let mut t: Transcript = Vec::new();
+    let name = name.to_string();
+    rt.block_on(async {
+        match name.as_str() {
+            "bgzf" => {
+                let mut r = bgzf::r#async::io::reader::Builder::default().set_worker_count(workers).build_from_reader(src);
+                let mut buf = vec![0u8; opts.bgzf_buf.max(1)];
+                let mut h: u64 = 0xcbf29ce484222325;
+                let mut total = 0usize;
+                let limit = data.len().saturating_mul(1100).saturating_add(1 << 20);
+                let end = loop {
+                    match r.read(&mut buf).await {
+                        Ok(0) => break Ev::Eof,
+                        Ok(n) => {
+                            for b in &buf[..n] {
+                                h ^= *b as u64;
+                                h = h.wrapping_mul(0x100000001b3);
+                            }
+                            total += n;
+                            if total > limit {
+                                break Ev::Runaway;
+                            }
+                        }
+                        Err(e) => break err_ev("read", &e),
+                    }
+                };
+                t.push(Ev::Bytes(h, total));
+                t.push(Ev::Vpos(u64::from(r.virtual_position())));
+                t.push(end);
+            }
+            "bam" | "bam-eager" => {
+                let inner = bgzf::r#async::io::reader::Builder::default().set_worker_count(workers).build_from_reader(src);
+                let mut r = bam::r#async::io::Reader::from(inner);
+                let header = match r.read_header().await {
+                    Ok(h) => h,
+                    Err(e) => {
+                        t.push(err_ev("header", &e));
+                        return;
+                    }
+                };
+                t.push(Ev::Header(sam_header_text(&header)));
+                if opts.vpos {
+                    t.push(Ev::Vpos(u64::from(r.get_ref().virtual_position())));
+                }
+                if name == "bam-eager" {
+                    let mut rec = sam::alignment::RecordBuf::default();
+                    loop {
+                        match r.read_record_buf(&header, &mut rec).await {
+                            Ok(0) => {
+                                t.push(Ev::Eof);
+                                break;
+                            }
+                            Ok(_) => {
+                                if !push(&mut t, opts, Ev::Record(format!("{rec:?}"))) {
+                                    break;
+                                }
+                                if opts.vpos {
+                                    t.push(Ev::Vpos(u64::from(r.get_ref().virtual_position())));
+                                }
+                            }
+                            Err(e) => {
+                                t.push(err_ev("record", &e));
+                                break;
+                            }
+                        }
+                    }
+                } else {
+                    let mut rec = bam::Record::default();
+                    loop {
+                        match r.read_record(&mut rec).await {
+                            Ok(0) => {
+                                t.push(Ev::Eof);
+                                break;
+                            }
+                            Ok(_) => {
+                                let ev = match aln_text(&header, &rec) {
+                                    Ok(s) => Ev::Record(s),
+                                    Err(e) => err_ev("decode", &e),
+                                };
+                                if !push(&mut t, opts, ev) {
+                                    break;
+                                }
+                                if opts.vpos {
+                                    t.push(Ev::Vpos(u64::from(r.get_ref().virtual_position())));
+                                }
+                            }
+                            Err(e) => {
+                                t.push(err_ev("record", &e));
+                                break;
+                            }
+                        }
+                    }
+                }
+            }
+            "sam" => {
+                let mut r = sam::r#async::io::Reader::new(BufReader::new(src));
+                let header = match r.read_header().await {
+                    Ok(h) => h,
+                    Err(e) => {
+                        t.push(err_ev("header", &e));
+                        return;
+                    }
+                };
+                t.push(Ev::Header(sam_header_text(&header)));
+                let mut rec = sam::alignment::RecordBuf::default();
+                loop {
+                    match r.read_record_buf(&header, &mut rec).await {
+                        Ok(0) => {
+                            t.push(Ev::Eof);
+                            break;
+                        }
+                        Ok(_) => {
+                            if !push(&mut t, opts, Ev::Record(format!("{rec:?}"))) {
+                                break;
+                            }
+                        }
+                        Err(e) => {
+                            t.push(err_ev("record", &e));
+                            break;
+                        }
+                    }
+                }
+            }
+            "cram" => {
+                let repo = match doc {
+                    Doc::Aln(a) => repository_of(a),
+                    _ => fasta::Repository::default(),
+                };
+                let mut r = cram::r#async::io::reader::Builder::default().set_reference_sequence_repository(repo).build_from_reader(src);
+                let header = match r.read_header().await {
+                    Ok(h) => h,
+                    Err(e) => {
+                        t.push(err_ev("header", &e));
+                        return;
+                    }
+                };
+                t.push(Ev::Header(sam_header_text(&header)));
+                let mut ended = false;
+                {
+                    let mut records = r.records(&header);
+                    while let Some(rec) = records.next().await {
+                        match rec {
+                            Ok(rec) => {
+                                if !push(&mut t, opts, Ev::Record(format!("{rec:?}"))) {
+                                    ended = true;
+                                    break;
+                                }
+                            }
+                            Err(e) => {
+                                t.push(err_ev("record", &e));
+                                ended = true;
+                                break;
+                            }
+                        }
+                    }
+                }
+                if !ended {
+                    t.push(Ev::Eof);
+                }
+            }
+            "vcf" => {
+                let mut r = vcf::r#async::io::Reader::new(BufReader::new(src));
+                let header = match r.read_header().await {
+                    Ok(h) => h,
+                    Err(e) => {
+                        t.push(err_ev("header", &e));
+                        return;
+                    }
+                };
+                t.push(Ev::Header(vcf_header_text(&header)));
+                let mut rec = vcf::Record::default();
+                loop {
+                    match r.read_record(&mut rec).await {
+                        Ok(0) => {
+                            t.push(Ev::Eof);
+                            break;
+                        }
+                        Ok(_) => {
+                            let ev = match var_text(&header, &rec) {
+                                Ok(s) => Ev::Record(s),
+                                Err(e) => err_ev("decode", &e),
+                            };
+                            if !push(&mut t, opts, ev) {
+                                break;
+                            }
+                        }
+                        Err(e) => {
+                            t.push(err_ev("record", &e));
+                            break;
+                        }
+                    }
+                }
+            }
+            "bcf" => {
+                let inner = bgzf::r#async::io::reader::Builder::default().set_worker_count(workers).build_from_reader(src);
+                let mut r = bcf::r#async::io::Reader::from(inner);
+                let header = match r.read_header().await {
+                    Ok(h) => h,
+                    Err(e) => {
+                        t.push(err_ev("header", &e));
+                        return;
+                    }
+                };
+                t.push(Ev::Header(vcf_header_text(&header)));
+                if opts.vpos {
+                    t.push(Ev::Vpos(u64::from(r.get_ref().virtual_position())));
+                }
+                let mut rec = bcf::Record::default();
+                loop {
+                    match r.read_record(&mut rec).await {
+                        Ok(0) => {
+                            t.push(Ev::Eof);
+                            break;
+                        }
+                        Ok(_) => {
+                            let ev = match var_text(&header, &rec) {
+                                Ok(s) => Ev::Record(s),
+                                Err(e) => err_ev("decode", &e),
+                            };
+                            if !push(&mut t, opts, ev) {
+                                break;
+                            }
+                            if opts.vpos {
+                                t.push(Ev::Vpos(u64::from(r.get_ref().virtual_position())));
+                            }
+                        }
+                        Err(e) => {
+                            t.push(err_ev("record", &e));
+                            break;
+                        }
+                    }
+                }
+            }
+            "fasta" => {
+                let mut r = fasta::r#async::io::Reader::new(BufReader::new(src));
+                loop {
+                    let mut def = fasta::record::Definition::new("", None);
+                    match r.read_definition(&mut def).await {
+                        Ok(0) => {
+                            t.push(Ev::Eof);
+                            break;
+                        }
+                        Ok(_) => {}
+                        Err(e) => {
+                            t.push(err_ev("record", &e));
+                            break;
+                        }
+                    }
+                    let mut seq = Vec::new();
+                    match r.read_sequence(&mut seq).await {
+                        Ok(_) => {
+                            let rec = fasta::Record::new(def, fasta::record::Sequence::from(seq));
+                            if !push(&mut t, opts, Ev::Record(format!("{rec:?}"))) {
+                                break;
+                            }
+                        }
+                        Err(e) => {
+                            t.push(err_ev("record", &e));
+                            break;
+                        }
+                    }
+                }
+            }
+            "fastq" => {
+                let mut r = fastq::r#async::io::Reader::new(BufReader::new(src));
+                let mut rec = fastq::Record::default();
+                loop {
+                    match r.read_record(&mut rec).await {
+                        Ok(0) => {
+                            t.push(Ev::Eof);
+                            break;
+                        }
+                        Ok(_) => {
+                            if !push(&mut t, opts, Ev::Record(format!("{rec:?}"))) {
+                                break;
+                            }
+                        }
+                        Err(e) => {
+                            t.push(err_ev("record", &e));
+                            break;
+                        }
+                    }
+                }
+            }
+            "gff" => {
+                let mut r = gff::r#async::io::Reader::new(BufReader::new(src));
+                let mut line = gff::Line::default();
+                loop {
+                    match r.read_line(&mut line).await {
+                        Ok(0) => {
+                            t.push(Ev::Eof);
+                            break;
+                        }
+                        Ok(_) => {
+                            if !push(&mut t, opts, Ev::Record(gff_line_text(&line, false))) {
+                                break;
+                            }
+                        }
+                        Err(e) => {
+                            t.push(err_ev("record", &e));
+                            break;
+                        }
+                    }
+                }
+            }
+            "bai" | "csi" | "tabix" | "gzi" | "fai" | "crai" => {
+                let res: io::Result<Vec<Ev>> = match name.as_str() {
+                    "bai" => bam::bai::r#async::io::Reader::new(src).read_index().await.map(|i| binning_index_events(&i)),
+                    "csi" => csi::r#async::io::Reader::new(src).read_index().await.map(|i| binning_index_events(&i)),
+                    "tabix" => tabix::r#async::io::Reader::new(src).read_index().await.map(|i| binning_index_events(&i)),
+                    "gzi" => bgzf::gzi::r#async::io::Reader::new(src).read_index().await.map(|i| i.as_ref().iter().map(|e| Ev::Record(format!("{e:?}"))).collect()),
+                    "fai" => fasta::fai::r#async::io::Reader::new(BufReader::new(src)).read_index().await.map(|i| i.as_ref().iter().map(|e| Ev::Record(format!("{e:?}"))).collect()),
+                    _ => cram::crai::r#async::io::Reader::new(src).read_index().await.map(|i| i.iter().map(|e| Ev::Record(format!("{e:?}"))).collect()),
+                };
+                match res {
+                    Ok(evs) => {
+                        for e in evs {
+                            if !push(&mut t, opts, e) {
+                                break;
+                            }
+                        }
+                        t.push(Ev::Eof);
+                    }
+                    Err(e) => t.push(err_ev("index", &e)),
+                }
+            }
+            _ => {}
+        }
+    });
+    let st = stats.lock().unwrap().clone();
+    Some((t, st))
+}
+
+/// Write `doc` through the async writer of driver `name` under a poll script with the documented
+/// finishing protocol (`shutdown`). Returns the bytes the sink holds.
+pub fn write_async(name: &str, doc: &Doc, script: &PollScript, workers: usize) -> Option<(io::Result<()>, Vec<u8>, PollStats)> {
+    if !has_async_writer(name) {
+        return None;
+    }
+    let sink = AdvAsyncWrite::new(script);
+    let bytes = sink.bytes.clone();
+    let stats = sink.stats.clone();
+    let rt = runtime();
+    let workers = NonZero::new(workers.clamp(1, 8)).unwrap();
+    let name = name.to_string();
+    let res: io::Result<()> = rt.block_on(async {
+        match name.as_str() {
+            "bgzf" => {
+                let Doc::Bytes { payload, flushes, level } = doc else { return Err(io::Error::other("wrong doc")) };
+                let data = payload.expand();
+                let mut b = bgzf::r#async::io::writer::Builder::default().set_worker_count(workers);
+                if let Some(l) = level {
+                    if let Some(cl) = bgzf::io::writer::CompressionLevel::new(*l) {
+                        b = b.set_compression_level(cl);
+                    }
+                }
+                let mut w = b.build_from_writer(sink);
+                let mut points: Vec<usize> = flushes.iter().map(|p| (*p as usize % 1001) * data.len() / 1000).collect();
+                points.sort_unstable();
+                let mut off = 0;
+                for p in points {
+                    w.write_all(&data[off..p]).await?;
+                    w.flush().await?;
+                    off = p;
+                }
+                w.write_all(&data[off..]).await?;
+                w.shutdown().await?;
+                Ok(())
+            }
+            "bam" => {
+                let d = aln_of(doc)?;
+                let (header, recs) = parse_sam(&d.sam_text("unsorted"))?;
+                let inner = bgzf::r#async::io::writer::Builder::default().set_worker_count(workers).build_from_writer(sink);
+                let mut w = bam::r#async::io::Writer::from(inner);
+                w.write_header(&header).await?;
+                for r in &recs {
+                    w.write_alignment_record(&header, r).await?;
+                }
+                w.shutdown().await?;
+                Ok(())
+            }
+            "sam" => {
+                let d = aln_of(doc)?;
+                let (header, recs) = parse_sam(&d.sam_text("unsorted"))?;
+                let mut w = sam::r#async::io::Writer::new(sink);
+                w.write_header(&header).await?;
+                for r in &recs {
+                    w.write_alignment_record(&header, r).await?;
+                }
+                w.get_mut().shutdown().await?;
+                Ok(())
+            }
+            "cram" => {
+                let d = aln_of(doc)?;
+                let (header, recs) = parse_sam(&d.sam_text("unsorted"))?;
+                let mut b = cram::r#async::io::writer::Builder::default().set_reference_sequence_repository(repository_of(d));
+                if let Some(n) = cram_records_per_slice(d) {
+                    b = b.verif_set_records_per_slice(n);
+                }
+                let mut w = b.build_from_writer(sink);
+                w.write_header(&header).await?;
+                for r in &recs {
+                    w.write_alignment_record(&header, r).await?;
+                }
+                w.shutdown(&header).await?;
+                Ok(())
+            }
+            "vcf" => {
+                let d = var_of(doc)?;
+                let (header, recs) = parse_vcf(&d.vcf_text())?;
+                let mut w = vcf::r#async::io::Writer::new(sink);
+                w.write_header(&header).await?;
+                for r in &recs {
+                    w.write_variant_record(&header, r).await?;
+                }
+                w.shutdown().await?;
+                Ok(())
+            }
+            "bcf" => {
+                let d = var_of(doc)?;
+                let (header, recs) = parse_vcf(&d.vcf_text())?;
+                let inner = bgzf::r#async::io::writer::Builder::default().set_worker_count(workers).build_from_writer(sink);
+                let mut w = bcf::r#async::io::Writer::from(inner);
+                w.write_header(&header).await?;
+                for r in &recs {
+                    w.write_variant_record(&header, r).await?;
+                }
+                w.get_mut().shutdown().await?;
+                Ok(())
+            }
+            "fastq" => {
+                let text = text_of(doc)?.render();
+                let mut rd = fastq::io::Reader::new(&text[..]);
+                let mut w = fastq::r#async::io::Writer::new(sink);
+                for rec in rd.records() {
+                    w.write_record(&rec?).await?;
+                }
+                w.get_mut().shutdown().await?;
+                Ok(())
+            }
+            "bai" => {
+                let Doc::BinIndex(d) = doc else { return Err(io::Error::other("wrong doc")) };
+                let ix = build_linear_index(d, false)?;
+                let mut w = bam::bai::r#async::io::Writer::new(sink);
+                w.write_index(&ix).await?;
+                w.shutdown().await?;
+                Ok(())
+            }
+            "tabix" => {
+                let Doc::BinIndex(d) = doc else { return Err(io::Error::other("wrong doc")) };
+                let ix = build_linear_index(d, true)?;
+                let mut w = tabix::r#async::io::Writer::new(sink);
+                w.write_index(&ix).await?;
+                w.shutdown().await?;
+                Ok(())
+            }
+            "csi" => {
+                let Doc::BinIndex(d) = doc else { return Err(io::Error::other("wrong doc")) };
+                let ix = build_binned_index(d)?;
+                let mut w = csi::r#async::io::Writer::new(sink);
+                w.write_index(&ix).await?;
+                w.shutdown().await?;
+                Ok(())
+            }
+            "gzi" => {
+                let Doc::Pairs(d) = doc else { return Err(io::Error::other("wrong doc")) };
+                let mut w = bgzf::gzi::r#async::io::Writer::new(sink);
+                w.write_index(&gzi_of_doc(d)).await?;
+                w.get_mut().shutdown().await?;
+                Ok(())
+            }
+            "fai" => {
+                let Doc::Fai(d) = doc else { return Err(io::Error::other("wrong doc")) };
+                let mut w = fasta::fai::r#async::io::Writer::new(sink);
+                w.write_index(&fai_of_doc(d)).await?;
+                w.shutdown().await?;
+                Ok(())
+            }
+            "crai" => {
+                let Doc::Crai(d) = doc else { return Err(io::Error::other("wrong doc")) };
+                let mut w = cram::crai::r#async::io::Writer::new(sink);
+                w.write_index(&crai_of_doc(d)).await?;
+                w.shutdown().await?;
+                Ok(())
+            }
+            _ => Ok(()),
+        }
+    });
+    let out = bytes.lock().unwrap().clone();
+    let st = stats.lock().unwrap().clone();
+    Some((res, out, st))
+}
